@@ -3,7 +3,7 @@
     sumbool, sumor; no Extract Constant).  N / Z / nat stay the extracted inductive datatypes. *)
 From Coq Require Extraction.
 From Coq Require Import ExtrOcamlBasic.
-From HC Require Import Base.HBytes Model.Tlv8 Model.Storage Model.Framing Model.ConnRead Model.ConnWrite Model.Charac.
+From HC Require Import Base.HBytes Model.Tlv8 Model.Storage Model.Framing Model.ConnRead Model.ConnWrite Model.Charac Model.Hap.
 Extraction Language OCaml.
 Set Extraction KeepSingleton.
 Separate Extraction
@@ -15,4 +15,5 @@ Separate Extraction
   Framing.decrypt_stream Framing.decrypt_segments Framing.cc_open Framing.cc_seal Framing.packets_pinned
   ConnRead.run_reads ConnRead.init_conn
   ConnWrite.wrun HBytes.chunks
-  Charac.cstep Charac.well_typed Z.opp Z.div Z.modulo.
+  Charac.cstep Charac.well_typed Z.opp Z.div Z.modulo
+  Hap.step Hap.fixed Hap.store_get Hap.empty_world Hap.get_conn.
